@@ -6,6 +6,9 @@
  *                     grants consistent with what every thread saw.
  * HDW_SHIM_FAIL_AT    comma separated request numbers (0-based, global) that fail with EIO
  * HDW_SHIM_FAIL_FROM  every request number >= this fails
+ * HDW_SHIM_SLOW_AFTER_FAIL  milliseconds every request sleeps (before it is numbered) once a failure was
+ *                     injected: gives the failed worker's error message ample time to reach the main thread,
+ *                     so that a process that keeps searching after it is observably ignoring the failure
  */
 #define _GNU_SOURCE
 #include <dlfcn.h>
@@ -21,6 +24,7 @@
 static pthread_mutex_t mu = PTHREAD_MUTEX_INITIALIZER;
 static long seq = 0;
 static int log_fd = -2;
+static volatile int failed_once = 0;
 
 static int should_fail(long n) {
     const char *from = getenv("HDW_SHIM_FAIL_FROM");
@@ -39,6 +43,10 @@ static int should_fail(long n) {
 
 int getentropy(void *buffer, size_t len) {
     static int (*real)(void *, size_t) = NULL;
+    if (failed_once) {
+        const char *slow = getenv("HDW_SHIM_SLOW_AFTER_FAIL");
+        if (slow && *slow) usleep(1000 * atol(slow));
+    }
     pthread_mutex_lock(&mu);
     if (!real) real = (int (*)(void *, size_t))dlsym(RTLD_NEXT, "getentropy");
     if (log_fd == -2) {
@@ -51,6 +59,7 @@ int getentropy(void *buffer, size_t len) {
     if (should_fail(n)) {
         rc = -1;
         saved = EIO;
+        failed_once = 1;
     } else {
         rc = real ? real(buffer, len) : -1;
         saved = errno;
